@@ -145,6 +145,9 @@ class StandIn:
         self._intervals = None
 
     def __getitem__(self, k):
+        if isinstance(k, (int, np.integer)) or (isinstance(k, np.ndarray) and k.ndim == 0 and k.dtype.kind in "iu"):
+            # a table row: the very objects held in the columns (as an astropy Row of object columns hands them out)
+            return {name: col[int(k)] for name, col in self.cols.items()}
         return self.cols[k]
 
     intervals = property(lambda self: PR.PhasePredictor.intervals.fget(self))
@@ -293,8 +296,10 @@ class Evaluate(Unit):
         if self.what == "f0":
             return [(cls.f0(me, tt, n) if cls else me.f0(tt, n)) for n in (0, 1)]
         if self.what == "phasepol":
+            before = [(list(np.asarray(q.coef, dtype=object)), list(np.asarray(q.domain, dtype=object))) for q in me["poly"]]
             pol, ref = (cls.phasepol(me, tt) if cls else me.phasepol(tt))
-            return {"pol": pol, "ref": ref, "at0": pol(0.0), "at": [pol(x) for x in (1.5, -2.0)]}
+            after = [(list(np.asarray(q.coef, dtype=object)), list(np.asarray(q.domain, dtype=object))) for q in me["poly"]]
+            return {"pol": pol, "ref": ref, "at0": pol(0.0), "at": [pol(x) for x in (1.5, -2.0)], "table": (before, after)}
 
     def _bound_checks(self, S, a, label, d, k, tol, inside_any):
         """|d(t)| <= tol on the span of entry k (plus the 1 ms merging slack), for d a polynomial in t: the difference polynomial is
@@ -396,6 +401,14 @@ class Evaluate(Unit):
                     checks.append((f"phasepol-reproduces-prediction-at-{x}", z3.And(inside_any, z3.Not(z3.Or(alts)))))
             v0 = term_of_number(out["at0"])
             checks.append(("phasepol-fraction-at-reference", z3.And(inside_any, z3.Or(v0 < -tolp, v0 > 1 + tolp))))
+            # the predictor itself must be left as it was (its stored polynomials are shared with later calls)
+            before, after = out["table"]
+            changed = [z3.BoolVal(len(before) != len(after))]
+            for (c0, d0), (c1, d1) in zip(before, after):
+                changed.append(z3.BoolVal(len(c0) != len(c1) or len(d0) != len(d1)))
+                for x, y in zip(c0 + d0, c1 + d1):
+                    changed.append(term_of_number(x) != term_of_number(y))
+            checks.append(("phasepol-leaves-predictor-unchanged", z3.Or(changed)))
         return checks
 
     def signature(self, label, values, detail):
